@@ -9,7 +9,8 @@
 From Coq Require Import String.
 From Emmet Require Import lib.Base lib.StyleLib model.CssTokenizer model.CssParser model.Score model.Color
      model.CssSnippets model.CssResolve model.CssFormat proofs.CssTokenizerProofs
-     proofs.StyleProofs proofs.StyleDashProofs proofs.StyleValueProofs proofs.StyleTokProofs.
+     proofs.StyleProofs proofs.StyleDashProofs proofs.StyleValueProofs proofs.StyleTokProofs
+     proofs.StyleMultiProofs proofs.StyleSweep proofs.StyleKeysResolve gen.GenCssSnippets run.StyleShow.
 Local Open Scope N_scope.
 
 (* ---- colours: printing never changes the value *)
@@ -158,19 +159,40 @@ Theorem C05_one_property_per_line :
 Proof. exact stringify_lines. Qed.
 Print Assumptions C05_one_property_per_line.
 
-(* ---- end to end.
-   FULL STATEMENT (value_seq_expand): for every key of a property snippet and every `+`-joined list of value
-   sequences of numbers / colours rendered with the statement's connectors, optional `!`:
-       expand (rendered) = one line per property,
-                           <property><between><values by the unit / colour rules, joined by " ">[" !important"]<after>.
-   PROVED: C05_value_seq_expand_partial -- exactly that, FROM THE STRING, for ONE property (no `+`), for ALL names
-   made of letters, ALL digit strings / units / hex strings (any length), ALL snippet tables in which the name selects
-   a property snippet (C06_keys_reach_self: every built-in key does) and ALL configurations without context / JSON.
-   It composes the scanner step (C05_value_seq_tokenize), the parser (C05_parser_value_seq) and resolver + unit rule
-   + formatter (C05_value_seq_expand_from_tokens).  MISSING for the full statement: several properties joined by `+`
-   (proved on the formatter side only: C05_one_property_per_line), an explicit `:` after the name, `!` elsewhere than
-   at the end; the harness compares the whole pipeline on those. *)
+(* ---- end to end: value_seq_expand, FULL, from the string.
+   For every `+`-joined list of properties  name [:] values [!]  -- names made of letters, values = numbers / colours
+   of ANY length rendered with the statement's connectors -- in every snippet table where each name [resolves]
+   (selects a property snippet entirely; C05_builtin_property_keys_resolve: every property key of the regenerated
+   built-in table does) and every configuration without context / JSON and with output.format on:
+       expand (rendered) = the properties' lines joined by newline + base indent,
+       line = <property><between><values by the unit / colour rules, joined by " ">[" !important"]<after>.
+   It composes the scanner (C05_value_seq_tokenize and its continuation form), the parser over siblings, the
+   resolver with the unit rule (C05_unit_rule) and the formatter (C05_line_shape, C05_one_property_per_line).
+   Not covered by the theorem (covered by the harness only): `!` elsewhere than at the end of a property, `#t`,
+   values that are keywords / functions / strings. *)
 
+(* [propv]: mkPropv name colon? values bang? ; [render_props] joins [prop_text]s with `+`;
+   [prop_line cfg sn p]: the line above, with property = matched_property cfg sn (name) *)
+Theorem C05_value_seq_expand :
+  forall cfg sn (props : list propv),
+    Forall propv_ok props -> props <> [] ->
+    Forall (fun p => resolves cfg sn (pv_key p)) props ->
+    c_context cfg = None -> c_json cfg = false -> c_format cfg = true ->
+    expand_with cfg sn (render_props props) = Ok (join (nl_text cfg) (map (prop_line cfg sn) props)).
+Proof. exact value_seq_expand_multi. Qed.
+Print Assumptions C05_value_seq_expand.
+
+(* every property key of the built-in table (except the gradient shortcut lg) resolves, under any configuration
+   that keeps the default minimum score: complete sweep over the regenerated table *)
+Theorem C05_builtin_property_keys_resolve :
+  forall cfg0 cfg sn,
+    cfg_plain = Some cfg0 -> c_min_score cfg = c_min_score cfg0 -> convert_snippets css_snippets = Ok sn ->
+    forall k, In k table_keys -> is_prop_key sn k = true -> str_eqb k gradient_name = false ->
+      resolves cfg sn k.
+Proof. exact builtin_property_keys_resolve. Qed.
+Print Assumptions C05_builtin_property_keys_resolve.
+
+(* ---- the single-property form and its stages *)
 (* the value grammar: [VNum (mkNum neg ip fp unit)] is  -? ip (. fp)? unit ; [VCol (mkCol hex alpha)] is  # hex (. alpha)? ;
    [render_vals]: after a unit-less number or a colour a `-` precedes the next value, after a unit the next value is
    juxtaposed (its leading `-` is its sign); [render_abbr key vals bang] = key ++ values ++ "!"? *)
@@ -185,7 +207,7 @@ Print Assumptions C05_value_seq_tokenize.
 
 (* [value_text_k cfg prop k]: a number prints frac(value, 4) ++ unit_spec cfg prop value raw unit (C05_unit_rule);
    a colour prints color(r, g, b, a, shortHex) with (r, g, b, a) = parse_color hex alpha (theorems C05_parse_color_1 .. 6) *)
-Theorem C05_value_seq_expand_partial :
+Theorem C05_value_seq_expand_single :
   forall cfg sn key key' prop value kws deps vals bang,
     key_ok key -> Forall val_ok vals -> vals <> [] ->
     c_context cfg = None -> c_json cfg = false ->
@@ -197,7 +219,7 @@ Theorem C05_value_seq_expand_partial :
         join [c_space] (map (fun v => value_text_k cfg prop (val_kind v)) vals) ++
         (if bang then lit " !important" else []) ++ c_after cfg).
 Proof. exact value_seq_expand. Qed.
-Print Assumptions C05_value_seq_expand_partial.
+Print Assumptions C05_value_seq_expand_single.
 
 Theorem C05_parser_value_seq :
   forall (lit0 b : ctoken) key ts vs bang,
@@ -264,4 +286,22 @@ Proof.
   - apply body_val; [reflexivity|]. apply body_delim; [reflexivity|]. apply body_val; [reflexivity|].
     apply body_delim; [reflexivity|]. apply body_val; [reflexivity|]. apply body_nil.
   - split; reflexivity.
+Qed.
+
+(* the full theorem is not vacuous: "p10+m:5e-#fc0!" is render_props of well-formed properties, and the sweep
+   covers >= 200 property keys *)
+Example C05_value_seq_multi_nonvacuous :
+  let props := [mkPropv (lit "p") false [VNum (mkNum false (lit "10") None [])] false;
+                mkPropv (lit "m") true [VNum (mkNum false (lit "5") None (lit "e")); VCol (mkCol (lit "fc0") None)] true] in
+  render_props props = lit "p10+m:5e#fc0!" /\ Forall propv_ok props /\ (200 <= property_key_count)%nat.
+Proof.
+  cbv zeta. split; [reflexivity|]. split; [|exact property_key_count_ge].
+  constructor; [|constructor; [|constructor]].
+  - split; [split; [discriminate|repeat constructor]|]. split; [|discriminate].
+    constructor; [|constructor]. cbn. split; [repeat constructor|]. split; [exact I|]. split; [left; discriminate|left; reflexivity].
+  - split; [split; [discriminate|repeat constructor]|]. split; [|discriminate].
+    constructor; [|constructor; [|constructor]].
+    + cbn. split; [repeat constructor|]. split; [exact I|]. split; [left; discriminate|].
+      right; right. split; [discriminate|repeat constructor].
+    + cbn. split; [discriminate|]. split; [repeat constructor|exact I].
 Qed.
